@@ -307,15 +307,15 @@ func runControl(m Mutant, repo, verif string) controlResult {
 		res.Detail = err.Error()
 		return res
 	}
-	build := exec.Command("go", "build", "./...")
-	build.Dir = dir
-	build.Env = goEnv()
-	if out, err := build.CombinedOutput(); err != nil {
+	// (whether the variant compiles is seen when it is loaded and type-checked
+	// for the analysis: no object code is built, so nothing is left in the build
+	// cache)
+	got, err := runSub(dir, []string{m.Rule}, m.Config)
+	if err == nil && got.LoadError != "" {
 		res.Status = "does-not-build"
-		res.Detail = lastLines(string(out), 3)
+		res.Detail = lastLines(got.LoadError, 3)
 		return res
 	}
-	got, err := runSub(dir, []string{m.Rule}, m.Config)
 	if err != nil || got.LoadError != "" {
 		res.Status = "did-not-fire"
 		res.Detail = fmt.Sprintf("run on variant failed: %v %s", err, got.LoadError)
@@ -374,15 +374,15 @@ func runBasedControl(m Mutant, repo, verif string) controlResult {
 		res.Status, res.Detail = "did-not-fire", err.Error()
 		return res
 	}
-	build := exec.Command("go", "build", "./...")
-	build.Dir = dir
-	build.Env = goEnv()
-	if out, err := build.CombinedOutput(); err != nil {
-		res.Status, res.Detail = "does-not-build", lastLines(string(out), 3)
+	// (whether the variant compiles is seen when it is loaded and type-checked
+	// for the analysis: no object code is built, so nothing is left in the build
+	// cache)
+	got, err := runSub(dir, []string{m.Rule}, m.Config)
+	if err == nil && got.LoadError != "" {
+		res.Status, res.Detail = "does-not-build", lastLines(got.LoadError, 3)
 		return res
 	}
-	got, err := runSub(dir, []string{m.Rule}, m.Config)
-	if err != nil || got.LoadError != "" {
+	if err != nil {
 		res.Status, res.Detail = "did-not-fire", fmt.Sprintf("run on variant failed: %v %s", err, got.LoadError)
 		return res
 	}
@@ -433,15 +433,15 @@ func runPatchControl(m Mutant, repo, verif string) controlResult {
 		res.Detail = "the seeded change no longer applies (the code moved on): " + lastLines(string(out), 2)
 		return res
 	}
-	build := exec.Command("go", "build", "./...")
-	build.Dir = dir
-	build.Env = goEnv()
-	if out, err := build.CombinedOutput(); err != nil {
-		res.Status, res.Detail = "does-not-build", lastLines(string(out), 3)
+	// (whether the variant compiles is seen when it is loaded and type-checked
+	// for the analysis: no object code is built, so nothing is left in the build
+	// cache)
+	got, err := runSub(dir, []string{m.Rule}, m.Config)
+	if err == nil && got.LoadError != "" {
+		res.Status, res.Detail = "does-not-build", lastLines(got.LoadError, 3)
 		return res
 	}
-	got, err := runSub(dir, []string{m.Rule}, m.Config)
-	if err != nil || got.LoadError != "" {
+	if err != nil {
 		res.Status, res.Detail = "did-not-fire", fmt.Sprintf("run on variant failed: %v %s", err, got.LoadError)
 		return res
 	}
@@ -517,14 +517,11 @@ func runNegativeControls(pr *Property, repo, verif string) []negativeResult {
 				res.Status, res.Detail = "skipped", "the refactoring no longer applies (the code moved on): "+lastLines(string(out), 1)
 				return
 			}
-			build := exec.Command("go", "build", "./...")
-			build.Dir = dir
-			build.Env = goEnv()
-			if out, e := build.CombinedOutput(); e != nil {
-				res.Status, res.Detail = "skipped", "does not build on this tree: "+lastLines(string(out), 1)
+			got, e := runSub(dir, pr.Rules, "")
+			if e == nil && got.LoadError != "" {
+				res.Status, res.Detail = "skipped", "does not build on this tree: "+lastLines(got.LoadError, 1)
 				return
 			}
-			got, e := runSub(dir, pr.Rules, "")
 			if e != nil || got.LoadError != "" {
 				res.Status, res.Detail = "skipped", fmt.Sprintf("run failed: %v %s", e, got.LoadError)
 				return
